@@ -599,7 +599,10 @@ fn foldcall_case(l: &[Sx]) -> String {
         _ => None,
     };
     let (_, pure) = crate::oracles::lookup(&name);
-    let verdict = if name == "if_then" && args.len() == 3 { "n/a" } else { match (&direct, &folded) {
+    let verdict = if !pure {
+        // a function registered impure must never be folded, whatever its argument count and shape (its result legitimately varies between calls)
+        if folded.is_some() { "FAILS" } else { "holds" }
+    } else if name == "if_then" && args.len() == 3 { "n/a" } else { match (&direct, &folded) {
         (Ok(d), Some(f)) => if show_value(d) == show_value(f) { "holds" } else { "FAILS" },
         (Err(_), None) => "holds",
         (Ok(_), None) => if pure && matches!(env.function_exists(&name, args.len()), slac::environment::FunctionResult::Exists { .. }) { "FAILS" } else { "n/a" },
